@@ -3,6 +3,13 @@ package verifsim
 import (
 	"bytes"
 	"context"
+	"crypto/ecdsa"
+	"crypto/elliptic"
+	crand "crypto/rand"
+	"crypto/x509"
+	"crypto/x509/pkix"
+	"encoding/pem"
+	"math/big"
 	"encoding/base64"
 	"encoding/binary"
 	"encoding/hex"
@@ -13,6 +20,8 @@ import (
 	"time"
 
 	"github.com/openbao/openbao/v2/internal/builtin/logical/kv"
+	"github.com/openbao/openbao/v2/internal/builtin/logical/pki"
+	"github.com/openbao/openbao/v2/internal/builtin/logical/transit"
 	"github.com/openbao/openbao/v2/internal/vault"
 	"github.com/openbao/openbao/sdk/v2/logical"
 )
@@ -177,7 +186,7 @@ func c01MonitorBody(rc *RunCtx) {
 	opts := CoreOpts{
 		DisableCache: tp.Pick(2) == 1, Plain: tp.Pick(3) == 2, DisableSSC: tp.Pick(2) == 1, EnableRaw: true,
 		Shares: 1 + tp.Pick(3),
-		Logical: map[string]logical.Factory{"kv": kv.Factory, "kv2": kv.VersionedKVFactory, "rec": RecFactory(rec, false)},
+		Logical: map[string]logical.Factory{"kv": kv.Factory, "kv2": kv.VersionedKVFactory, "rec": RecFactory(rec, false), "pki": pki.Factory, "transit": transit.Factory},
 		Credential: map[string]logical.Factory{"rec": RecFactory(rec, true)},
 	}
 	opts.Thresh = 1 + tp.Pick(opts.Shares)
@@ -202,16 +211,87 @@ func c01MonitorBody(rc *RunCtx) {
 	must(h.Mount("v2", "kv2", nil))
 	must(h.Mount("rec", "rec", nil))
 	must(h.EnableAuth("rec", "rec"))
+	must(h.Mount("pki", "pki", nil))
+	must(h.Mount("transit", "transit", nil))
 	var steps []string
 	do := func(desc string, r Req) *logical.Response {
 		steps = append(steps, desc)
-		resp, _ := h.Do("c01", r)
+		resp, err := h.Do("c01", r)
+		if err != nil || (resp != nil && resp.IsError()) {
+			s.Probe("op_refused:" + desc)
+		} else {
+			s.Probe("op_ok:" + desc)
+		}
 		return resp
 	}
 	n := 8 + tp.Pick(12)
 	var tokens []string
 	for i := 0; i < n && s.Viol == nil; i++ {
-		switch tp.Pick(12) {
+		switch tp.Pick(16) {
+		case 12: // root key rotation: stored keys + keyring are rewritten
+			do("rotate root", Req{Op: logical.UpdateOperation, Path: "sys/rotate/root", Token: h.Root})
+		case 13: // a CA whose private key is known to the monitor is imported into the pki engine
+			key, _ := ecdsa.GenerateKey(elliptic.P256(), crand.Reader)
+			der, _ := x509.MarshalECPrivateKey(key)
+			keyPEM := string(pem.EncodeToMemory(&pem.Block{Type: "EC PRIVATE KEY", Bytes: der}))
+			tmpl := &x509.Certificate{SerialNumber: big.NewInt(int64(1000 + i)), Subject: pkix.Name{CommonName: fmt.Sprintf("monitor root %d", i)}, NotBefore: time.Now().Add(-time.Hour), NotAfter: time.Now().Add(1000 * time.Hour),
+				IsCA: true, BasicConstraintsValid: true, KeyUsage: x509.KeyUsageCertSign | x509.KeyUsageCRLSign}
+			cder, _ := x509.CreateCertificate(crand.Reader, tmpl, tmpl, &key.PublicKey, key)
+			certPEM := string(pem.EncodeToMemory(&pem.Block{Type: "CERTIFICATE", Bytes: cder}))
+			// the key must not reach the disk in DER or PEM form: register both
+			mon.AddCanary(string(der[7:39])) // the 32-byte private scalar
+			for _, line := range strings.Split(keyPEM, "\n") {
+				if len(line) == 64 {
+					mon.AddCanary(line)
+				}
+			}
+			do("pki import ca", Req{Op: logical.UpdateOperation, Path: "pki/config/ca", Token: h.Root, Data: map[string]any{"pem_bundle": keyPEM + certPEM}})
+			do("pki issue", Req{Op: logical.UpdateOperation, Path: "pki/roles/r", Token: h.Root, Data: map[string]any{"allow_any_name": true, "key_type": "ec", "key_bits": 256, "ttl": "1h"}})
+			if resp := do("pki issue", Req{Op: logical.UpdateOperation, Path: "pki/issue/r", Token: h.Root, Data: map[string]any{"common_name": "leaf.example.com"}}); resp != nil && resp.Data != nil {
+				if pk, _ := resp.Data["private_key"].(string); pk != "" {
+					for _, line := range strings.Split(pk, "\n") {
+						if len(line) == 64 {
+							mon.AddCanary(line) // leaf keys are not stored (no_store off stores the CERT only)
+						}
+					}
+				}
+			}
+		case 14: // transit: exported key material must match nothing on disk
+			name := fmt.Sprintf("t%d", tp.Pick(2))
+			do("transit create", Req{Op: logical.UpdateOperation, Path: "transit/keys/" + name, Token: h.Root, Data: map[string]any{"type": "aes256-gcm96", "exportable": true}})
+			do("transit rotate", Req{Op: logical.UpdateOperation, Path: "transit/keys/" + name + "/rotate", Token: h.Root})
+			if resp := do("transit export", Req{Op: logical.ReadOperation, Path: "transit/export/encryption-key/" + name, Token: h.Root}); resp != nil && resp.Data != nil {
+				if ks, ok := resp.Data["keys"].(map[string]string); ok {
+					for _, b64k := range ks {
+						if raw, err := base64.StdEncoding.DecodeString(b64k); err == nil && len(raw) >= 16 {
+							mon.AddCanary(string(raw))
+						}
+					}
+				}
+			}
+			do("transit encrypt", Req{Op: logical.UpdateOperation, Path: "transit/encrypt/" + name, Token: h.Root, Data: map[string]any{"plaintext": base64.StdEncoding.EncodeToString([]byte(canary("transit-pt")))}})
+		case 15: // a namespace with its own seal: its seal config / stored keys are bootstrap records, its data is not
+			nsn := fmt.Sprintf("sealed%d", tp.Pick(2))
+			resp := do("sealable namespace", Req{Op: logical.UpdateOperation, Path: "sys/namespaces/" + nsn, Token: h.Root, Data: map[string]any{"seal": `seal "shamir" { shares = 1  threshold = 1 }`}})
+			var nskey string
+			if resp != nil && resp.Data != nil {
+				switch ks := resp.Data["key_shares"].(type) {
+				case []string:
+					if len(ks) > 0 {
+						nskey = ks[0]
+					}
+				case []any:
+					if len(ks) > 0 {
+						nskey = fmt.Sprint(ks[0])
+					}
+				}
+			}
+			if nskey != "" {
+				do("ns unseal", Req{Op: logical.UpdateOperation, Path: "sys/namespaces/" + nsn + "/unseal", Token: h.Root, Data: map[string]any{"key": nskey}})
+			}
+			do("sealed-ns mount", Req{Op: logical.UpdateOperation, Path: "sys/mounts/skv", Token: h.Root, NS: nsn + "/", Data: map[string]any{"type": "kv"}})
+			do("sealed-ns kv write", Req{Op: logical.UpdateOperation, Path: "skv/x", Token: h.Root, NS: nsn + "/", Data: map[string]any{"v": canary("sealedns")}})
+			do("sealed-ns rotate", Req{Op: logical.UpdateOperation, Path: "sys/rotate", Token: h.Root, NS: nsn + "/"})
 		case 0:
 			do("kv write", Req{Op: logical.UpdateOperation, Path: fmt.Sprintf("secret/a%d", i), Token: h.Root, Data: map[string]any{"password": canary("kv")}})
 		case 1:
